@@ -1,7 +1,7 @@
 """C12: the constant-folding family -- the checker EXECUTES real Python operations on known constants (f-string format
 specs and conversions, % / str.format on literals, operators on literals, allow-listed pure callables on known arguments).
-TLC (Totality.tla, generator K*) picks an operation and a value x from the menus below (for binary operations also the
-menu of second operands ys); this module renders the case to a module of never-called functions, one per second operand.
+TLC (Totality.tla, generator K*) picks an operation (family, index) together with the menu of first operands xs and, for
+binary operations, the menu of second operands ys; this module renders the case to a module of never-called functions, one per pair of operands.
 Caps: every expression is evaluated by CPython itself in well under 0.1 s (exponents and repeat counts are bounded by the
 menus; harness self-check `selfcheck_cost`)."""
 from __future__ import annotations
@@ -41,26 +41,27 @@ UNOPS = ["-{X}", "~{X}", "+{X}", "not {X}", "{X}[0]", "{X}[5]", "{X}[-2]", "{X}[
          "-(-{X})", "~~{X}", "{X} * {X}", "{X} ** 2", "{X} ** -1", "{X} ** 0.5", "{X} // 0", "{X} % 0", "{X} / 0", "0 ** {X}", "1 << {X}", "1 >> {X}", "{X} << 1",
          "{X} @ {X}", "[*{X}]", "{{**{X}}}", "(lambda: {X})()", "[{X} for _ in {X}]", "{X}[{X}]", "{X}({X})", "{X}.__class__({X})", "assert {X}, {X}",
          "del {X}[0]", "a, b = {X}", "a, *b = {X}", "for q in {X}: pass", "with {X}: pass", "raise {X}", "print(*{X}, **{X})"]
-BINOPS_ALL = ["+", "-", "*", "/", "//", "%", "@", "&", "|", "^", "<<", ">>", "<", "<=", "==", "!=", ">", ">=", "in", "not in", "is", "is not", "and", "or"]
-BINOPS_SMALL = ["**"]
+BINOPS_ALL = ["+", "-", "/", "//", "%", "@", "&", "|", "^", "<<", ">>", "<", "<=", "==", "!=", ">", ">=", "in", "not in", "is", "is not", "and", "or"]
+BINOPS_SMALL = ["**"]        # exponents come from the small menu
+BINOPS_BOTHSMALL = ["*", "{X}.__mul__({Y})", "{X}.__rmul__({Y})"]   # repeat counts: both operands from the small menu
 BINCALLS_ALL = ["divmod({X}, {Y})", "{X}[{Y}]", "{X}[{Y}:{Y}]", "{X}[::{Y}]", "int({X}, {Y})", "range({X}, {Y})", "getattr({X}, {Y})", "isinstance({X}, {Y})", "max({X}, {Y})",
                 "min({X}, {Y})", "{Y}.join({X})", "'a'.center({X}, {Y})", "{X}.split({Y})", "{X}.count({Y})", "{X}.index({Y})", "str({X}, {Y})", "bytes({X}, {Y})",
-                "{X}.encode({Y})", "{X}.to_bytes({Y}, 'big')", "{X}.__add__({Y})", "{X}.__mul__({Y})", "{X}.__lshift__({Y})", "{X} if {Y} else {Y}", "{{{X}: {Y}}}[{Y}]",
+                "{X}.encode({Y})", "{X}.to_bytes({Y}, 'big')", "{X}.__add__({Y})", "{X}.__lshift__({Y})", "{X} if {Y} else {Y}", "{{{X}: {Y}}}[{Y}]",
                 "({X}, {Y})[{Y}]", "dict([({X}, {Y})])", "{X}.startswith({Y})", "{X}.replace({Y}, {Y})", "{X}.find({Y})", "{X}.ljust({Y})", "{X} < {Y} < {X}", "complex({X}, {Y})",
                 "slice({X}, {Y})", "int.from_bytes({X}, {Y})", "{X}.__format__({Y})", "format({X}, {Y})", "{X}.format({Y})", "{X} % ({Y},)", "{X} % {Y}"]
-BINCALLS_SMALL = ["pow({X}, {Y})", "round({X}, {Y})", "{X}.__pow__({Y})", "pow({X}, {Y}, 7)", "pow(2, {X}, {Y})"]
+BINCALLS_SMALL = ["pow({X}, {Y})", "round({X}, {Y})", "{X}.__pow__({Y})", "pow({X}, {Y}, 7)"]
 
 YS_ALL = list(VALUES)
-YS_SMALL = ["m1", "zero", "one", "u255", "f15", "negf", "inf", "nan", "none", "str", "true", "tup"]
+YS_SMALL = ["m1", "zero", "one", "u255", "f15", "negf", "inf", "nan", "none", "str", "true", "tup", "lst", "bytes"]
 # x values for which an exponent-like SMALL operation is generated at all (everything: bases may be huge, exponents are not)
 
 
 def families() -> dict[str, list[str]]:
     return {"fstr": FSPECS, "fconv": FCONVS, "fnest": FNEST, "pct": PCTS, "pctstar": PCTSTAR, "fmt": FMTS, "fmtfield": FMTFIELDS, "fmtnest": FMTNEST,
-            "call": CALLS, "unop": UNOPS, "binop": BINOPS_ALL, "binop_small": BINOPS_SMALL, "bincall": BINCALLS_ALL, "bincall_small": BINCALLS_SMALL}
+            "call": CALLS, "unop": UNOPS, "binop": BINOPS_ALL, "binop_small": BINOPS_SMALL, "mul": BINOPS_BOTHSMALL, "bincall": BINCALLS_ALL, "bincall_small": BINCALLS_SMALL}
 
 
-BINARY = {"fnest": "all", "pctstar": "all", "fmtnest": "all", "binop": "all", "binop_small": "small", "bincall": "all", "bincall_small": "small"}
+BINARY = {"mul": "bothsmall", "fnest": "all", "pctstar": "all", "fmtnest": "all", "binop": "all", "binop_small": "small", "bincall": "all", "bincall_small": "small"}
 
 
 def expression(fam: str, idx: int, x: str, y: str) -> str:
@@ -86,7 +87,9 @@ def expression(fam: str, idx: int, x: str, y: str) -> str:
         return '"' + arg + '".format(' + X + ", " + Y + ")"
     if fam in ("binop", "binop_small"):
         return X + " " + arg + " " + Y
-    if fam in ("call", "unop", "bincall", "bincall_small"):
+    if fam == "mul" and "{" not in arg:
+        return X + " " + arg + " " + Y
+    if fam in ("call", "unop", "bincall", "bincall_small", "mul"):
         return arg.replace("{{", "\0").replace("}}", "\1").replace("{X}", X).replace("{Y}", Y).replace("\0", "{").replace("\1", "}")
     raise core.MachineryError(f"unknown constant-folding family {fam}")
 
@@ -95,12 +98,13 @@ STATEMENTS = ("assert ", "del ", "a, b = ", "a, *b = ", "for ", "with ", "raise 
 
 
 def render(case: dict) -> str:
-    """One never-called function per second operand (a single one for unary operations)."""
-    fam, idx, x = case["fam"], case["idx"], case["x"]
+    """One never-called function per first operand x and (for binary operations) second operand y."""
+    fam, idx = case["fam"], case["idx"]
     ys = case["ys"] or ["none"]
     lines = []
-    for i, y in enumerate(ys):
-        e = expression(fam, idx, x, y)
-        lines.append(f"def k{i}():")
-        lines.append("    " + (e if e.startswith(STATEMENTS) else "return " + e))
+    for x in case["xs"]:
+        for y in ys:
+            e = expression(fam, idx, x, y)
+            lines.append(f"def k_{x}_{y}():")
+            lines.append("    " + (e if e.startswith(STATEMENTS) else "return " + e))
     return "\n".join(lines) + "\n"
